@@ -3,6 +3,8 @@ import JunoModel.C01.ProofsState
 import JunoModel.C01.ModelLegacy
 import JunoModel.C01.ProofsLazy
 import JunoModel.C01.ModelStore
+import JunoModel.C01.ProofsLegacy
+import JunoModel.C01.ProofsLegacyDel
 /-!
 C01 — property theorems (statements only; helper lemmas are in `Proofs*.lean`).
 Every theorem in this module is an obligation listed in evidence/C01.json with its axioms.
@@ -341,43 +343,28 @@ example : State.runD true [.dropped ⟨[], [], [(slot7, .felt 5)], [], [], [(slo
 
 /-! ## The legacy trie (`core/trie`)
 
-`Legacy.put / Legacy.hash` transcribe the flat, path-keyed trie with its dirty-node list and lazy
-rehash. The full statement
+`Legacy.put / Legacy.hash` transcribe the flat, path-keyed trie: `Put` (updateLeaf, handleEmptyTrie,
+deleteExistingKey + deleteLast, insertOrUpdateValue with its eager parent hash), `nodesFromRoot`, the
+dirty-node list and the lazy rehash `updateValueIfDirty` run by `Hash()`.
+Invariant proved for every history (`Legacy.Repr`): the flat store is, key by key, the flattening of the
+canonical trie2 tree of the history's map (leaves, inner nodes, links, root key), and every cached inner
+value is the hash of its children's cached values unless a dirty key lies strictly below it. -/
 
-    theorem legacy_canonical (k n ops) (hv : ValidOps n ops) :
-        Legacy.runOps n k ops = some (Spec.root k n (absRun ops))
+/-- **The legacy trie is canonical.** For EVERY sequence of inserts, overwrites, zero-writes (present or
+absent keys) and `Hash()` calls the root returned by the legacy trie is the Starknet commitment of the
+resulting key/value map (and no call fails). -/
+theorem legacy_canonical (k : HashKind) (n : Nat) (ops : List Op) (hv : ValidOps n ops) :
+    Legacy.runOps n k ops = some (Spec.root k n (absRun ops)) :=
+  Legacy.runOps_all k n ops hv
 
-(and with it `backends_agree : Legacy.runOps n k ops = some (Trie2.hashRoot k (Trie2.run k ops)).1`)
-is NOT proved for unbounded histories: it needs the invariant "every stored inner node is the longest
-common prefix of its two children, and its cached value is the hash of its subtree unless a dirty key
-lies strictly below it" over the flat storage, which was not closed. What is proved is the bounded
-instance below (every history of at most 3 operations over all keys of a height-2 trie and of at most
-4 operations at height 1, values {0,1,2}, `Hash()` anywhere), checked by kernel evaluation; beyond
-the bound the legacy model is tied to the code and to `Spec.root` by the correspondence harness. -/
+/-- **Both trie implementations agree** on every history. -/
+theorem backends_agree (k : HashKind) (n : Nat) (ops : List Op) (hv : ValidOps n ops) :
+    Legacy.runOps n k ops = some (Trie2.hashRoot k (Trie2.run k ops)).1 := by
+  rw [legacy_canonical k n ops hv, (trie2_canonical k n ops hv).2.2]
 
-def allPaths : Nat → List Path
-  | 0 => [[]]
-  | n + 1 => (allPaths n).flatMap (fun p => [false :: p, true :: p])
-
-def smallOps (h : Nat) : List Op :=
-  (allPaths h).flatMap (fun key => [Op.put key (.felt 0), .put key (.felt 1), .put key (.felt 2)]) ++ [.hash]
-
-def seqsUpTo : Nat → List Op → List (List Op)
-  | 0, _ => [[]]
-  | n + 1, alpha => [] :: (seqsUpTo n alpha).flatMap (fun s => alpha.map (fun o => o :: s))
-
-set_option maxRecDepth 100000 in
-/-- bounded instance of `backends_agree` / `legacy_canonical`, height 2, ≤ 3 operations -/
-theorem legacy_agrees_with_trie2_h2_partial :
-    ∀ ops ∈ seqsUpTo 3 (smallOps 2),
-      Legacy.runOps 2 .pedersen ops = some (Trie2.hashRoot .pedersen (Trie2.run .pedersen ops)).1 := by
-  decide +kernel
-
-set_option maxRecDepth 100000 in
-/-- bounded instance, height 1, ≤ 4 operations -/
-theorem legacy_agrees_with_trie2_h1_partial :
-    ∀ ops ∈ seqsUpTo 4 (smallOps 1),
-      Legacy.runOps 1 .poseidon ops = some (Trie2.hashRoot .poseidon (Trie2.run .poseidon ops)).1 := by
-  decide +kernel
+/-- non-vacuity: insert, hash, overwrite, delete collapsing a binary node, delete to empty -/
+example : Legacy.runOps 2 .pedersen [.put [true, false] (.felt 3), .hash, .put [true, true] (.felt 4),
+    .put [true, false] (.felt 9), .put [true, true] (.felt 0)] = some (.add (.h .pedersen (.felt 9) (.felt 2)) 2) := by
+  decide
 
 end Juno.C01.Props
